@@ -1,6 +1,7 @@
 # -*- coding: utf-8 -*-
 """C07  latex2text is total: a string for every input and option set."""
 import ast
+from .. import core
 from ..core import (AnalysisError, short, unparse, iter_own, call_name, call_recv, kwarg,
                     is_self_attr, atomic_facts, parents, enclosing_stmt, enclosing_func, const_value)
 from .. import tables
@@ -132,6 +133,12 @@ def run(ctx):
                     and isinstance(f.node, ast.FunctionDef))]
         elif isinstance(r, tables._Imported):
             extra += prog.by_name.get(r.name.rsplit('.', 1)[-1], [])
+    # the property quantifies over every combination of the documented options: the constructor is
+    # part of the entry surface
+    ctor = prog.cls_methods.get('LatexNodes2Text', {}).get('__init__')
+    if ctor is None:
+        raise AnalysisError('anchor vanished: LatexNodes2Text.__init__')
+    extra.append(ctor)
     extra = list({f.key: f for f in extra}.values())
     ctx.analysed['table_callable_entry_points'] = len(extra)
     totality.escape_obligations(ctx, 'R07d', repo, entry, True, (), 'nothing')
@@ -156,15 +163,11 @@ def run(ctx):
     ntt = meths.get('node_to_text')
     if ntt is None:
         raise AnalysisError('anchor vanished: LatexNodes2Text.node_to_text')
-    for i in [x for x in iter_own(ntt) if isinstance(x, ast.If)]:
-        t = i.test
-        if isinstance(t, ast.Call) and call_name(t) == 'isNodeType' and t.args:
-            cls = unparse(t.args[0]).rsplit('.', 1)[-1]
-            for s in i.body:
-                if isinstance(s, ast.Return) and isinstance(s.value, ast.Call) and is_self_attr(s.value.func):
-                    tgt = prog.cls_methods.get('LatexNodes2Text', {}).get(s.value.func.attr)
-                    if tgt is not None and len(tgt.node.args.args) > 1:
-                        add(tgt.key, tgt.node.args.args[1].arg, {cls})
+    from .. import shapes
+    for cls, mname in sorted(shapes.node_dispatch(ntt).items()):
+        tgt = prog.cls_methods.get('LatexNodes2Text', {}).get(mname)
+        if tgt is not None and len(tgt.node.args.args) > 1:
+            add(tgt.key, tgt.node.args.args[1].arg, {cls})
     # table callables
     n_callables = 0
     for e in lt.all_entries:
@@ -260,8 +263,8 @@ def run(ctx):
     valid = None
     for n in iter_own(init):
         if isinstance(n, ast.Compare) and is_self_attr(n.left, 'math_mode') and \
-                isinstance(n.ops[0], ast.NotIn) and isinstance(n.comparators[0], (ast.Tuple, ast.List)):
-            valid = {const_value(e) for e in n.comparators[0].elts}
+                isinstance(n.ops[0], ast.NotIn) and core.const_members(m, n.comparators[0]) is not None:
+            valid = set(core.const_members(m, n.comparators[0]))
     ctx.decide('R07c', valid is not None and valid == arms, m, mf,
                'validated math modes = arms (%s): the final RuntimeError is dead' % sorted(arms),
                'math modes accepted by __init__ (%s) and arms of math_node_to_text (%s) differ: an '
@@ -393,6 +396,15 @@ def run(ctx):
                    construct='callable of %s %s' % (e['kind'], e['name']))
     ctx.assume('third-party simplify_repl callables and custom contexts are outside the rule; bounded '
                'running time is not decided')
+    # ---- R07j: per-converter memo dictionaries
+    ctx.rule('R07j', 'a value remembered per converter object (self.X[key] = value, read back later) is keyed by a '
+                     'one-to-one function of everything it was computed from: a colliding key hands a callable the '
+                     'keyword arguments of another one (TypeError)', 0)
+    from . import c09 as _c09
+    nm_ = _c09.object_memos(ctx, 'R07j', repo, lambda name: name.startswith('pylatexenc.latex2text'))
+    ctx.holds('R07j', m, None, '%d per-object memo store(s) in latex2text examined' % nm_,
+              construct='per-object memo scan', trivial=True)
+
     return 'other', (
         'Exception-escape analysis of latex_to_text (tolerant configuration), crash-construct rules '
         'G1-G9 on every function reachable from it (including the default replacement callables), a '
